@@ -1,4 +1,4 @@
-//@@ unit props=C02,C06,C10,C16,C17,C12,C19
+//@@ unit props=C02,C06,C10,C16,C17,C12,C19,C11
 // Unit xlsrec: BIFF8 record walkers of src/xls.rs (verbatim text).
 #![allow(unused_imports, dead_code, unused_variables, unused_mut, unused_assignments, unexpected_cfgs)]
 use vstd::prelude::*;
@@ -158,10 +158,10 @@ proof fn lemma_le_at(r: Seq<u8>, o: int)
 //@@ endimpl
 
 //@@ impl src/datatype.rs ExcelDateTime
-//@@ fn src/datatype.rs ExcelDateTime::new props=C10,C16 ret=d
+//@@ fn src/datatype.rs ExcelDateTime::new props=C10,C16,C11 ret=d
 //@@ sig
     ensures
-        //# C10,C16.edt_new
+        //# C10,C16,C11.edt_new
         d == ExcelDateTime::mk(value, datetime_type, is_1904),
 //@@ end
 //@@ endimpl
@@ -192,10 +192,10 @@ impl<'a> vstd::std_specs::convert::FromSpecImpl<DataRef<'a>> for Data {
 //@@ end
 //@@ endimpl
 
-//@@ fn src/formats.rs format_excel_f64_ref props=C10,C02,C16 ret=d
+//@@ fn src/formats.rs format_excel_f64_ref props=C10,C02,C16,C11 ret=d
 //@@ sig
     ensures
-        //# C10,C02,C16.format_f64_ref
+        //# C10,C02,C16,C11.format_f64_ref
         match format {
             Some(CellFormat::DateTime) => d == DataRef::DateTime(ExcelDateTime::mk(value, ExcelDateTimeType::DateTime, is_1904)),
             Some(CellFormat::TimeDelta) => d == DataRef::DateTime(ExcelDateTime::mk(value, ExcelDateTimeType::TimeDelta, is_1904)),
@@ -203,17 +203,17 @@ impl<'a> vstd::std_specs::convert::FromSpecImpl<DataRef<'a>> for Data {
         },
 //@@ end
 
-//@@ fn src/formats.rs format_excel_f64 props=C10,C02,C16 ret=d
+//@@ fn src/formats.rs format_excel_f64 props=C10,C02,C16,C11 ret=d
 //@@ sig
     ensures
-        //# C10,C02,C16.format_f64
+        //# C10,C02,C16,C11.format_f64
         d == wrap_f64(value, opt_fmt(format), is_1904),
 //@@ end
 
-//@@ fn src/formats.rs format_excel_i64 props=C10,C02,C16 ret=d
+//@@ fn src/formats.rs format_excel_i64 props=C10,C02,C16,C11 ret=d
 //@@ sig
     ensures
-        //# C10,C02,C16.format_i64
+        //# C10,C02,C16,C11.format_i64
         wrap_i64(value, opt_fmt(format), is_1904, d),
 //@@ end
 
@@ -230,7 +230,7 @@ impl<'a> vstd::std_specs::convert::FromSpecImpl<DataRef<'a>> for Data {
 // Cell records
 // =====================================================================================================
 
-//@@ fn src/xls.rs parse_number props=C02,C10,C16 entry ret=res
+//@@ fn src/xls.rs parse_number props=C02,C10,C16,C11 entry ret=res
 //@@ sig
     ensures
         //# C02.number_len_guard
@@ -239,7 +239,7 @@ impl<'a> vstd::std_specs::convert::FromSpecImpl<DataRef<'a>> for Data {
         r@.len() < 14 ==> is_len_err(res, 14, r@.len() as int),
         //# C02.number_pos
         r@.len() >= 14 ==> res is Ok && res->Ok_0.p() == cell_pos(r@),
-        //# C02,C10,C16.number_value
+        //# C02,C10,C16,C11.number_value
         r@.len() >= 14 ==> res is Ok && res->Ok_0.v() == wrap_f64(f64_of_bits(u64_at(r@, 6)), fmt_at(formats@, cell_ixfe(r@)), is_1904),
 //@@ body
     proof { lemma_le_at(r@, 0); lemma_le_at(r@, 2); lemma_le_at(r@, 4); lemma_le_at(r@, 6); assert(r@.subrange(0, r@.len() as int) =~= r@); }
@@ -265,7 +265,7 @@ impl<'a> vstd::std_specs::convert::FromSpecImpl<DataRef<'a>> for Data {
     proof { lemma_le_at(r@, 0); lemma_le_at(r@, 2); assert(r@.subrange(0, r@.len() as int) =~= r@); }
 //@@ end
 
-//@@ fn src/xls.rs parse_rk props=C02,C10,C16 entry ret=res
+//@@ fn src/xls.rs parse_rk props=C02,C10,C16,C11 entry ret=res
 //@@ sig
     ensures
         //# C02.rk_len_guard
@@ -274,7 +274,7 @@ impl<'a> vstd::std_specs::convert::FromSpecImpl<DataRef<'a>> for Data {
         r@.len() < 10 ==> is_len_err(res, 10, r@.len() as int),
         //# C02.rk_pos
         r@.len() >= 10 ==> res is Ok && res->Ok_0.p() == cell_pos(r@),
-        //# C02,C10,C16.rk_value
+        //# C02,C10,C16,C11.rk_value
         r@.len() >= 10 ==> res is Ok && res->Ok_0.v() == rk_value(r@.subrange(6, 10), fmt_at(formats@, cell_ixfe(r@)), is_1904),
 //@@ body
     proof {
@@ -439,7 +439,7 @@ pub open spec fn mulrk_cell_ok(r: Seq<u8>, formats: Seq<CellFormat>, is_1904: bo
     && c.v() == rk_value(r.subrange(6 + 6 * k, 10 + 6 * k), fmt_at(formats, u16_at(r, 4 + 6 * k)), is_1904)
 }
 
-//@@ fn src/xls.rs parse_mul_rk props=C02,C10,C16 entry ret=res
+//@@ fn src/xls.rs parse_mul_rk props=C02,C10,C16,C11 entry ret=res
 //@@ r6 0
 //@@ sig
     ensures
@@ -458,7 +458,7 @@ pub open spec fn mulrk_cell_ok(r: Seq<u8>, formats: Seq<CellFormat>, is_1904: bo
         mulrk_wf(r@) ==> final(cells)@.len() == old(cells)@.len() + mulrk_n(r@),
         //# C02.mulrk_frame
         mulrk_wf(r@) ==> final(cells)@.subrange(0, old(cells)@.len() as int) == old(cells)@,
-        //# C02,C10,C16.mulrk_cells
+        //# C02,C10,C16,C11.mulrk_cells
         mulrk_wf(r@) ==> forall|k: int| 0 <= k < mulrk_n(r@) ==>
             mulrk_cell_ok(r@, formats@, is_1904, k, #[trigger] final(cells)@[old(cells)@.len() + k]),
 //@@ body
@@ -476,7 +476,7 @@ pub open spec fn mulrk_cell_ok(r: Seq<u8>, formats: Seq<CellFormat>, is_1904: bo
             chunks_rem(__it0) =~= r@.subrange(4 + 6 * k, r@.len() - 2),
             cells@.len() == c0.len() + k,
             cells@.subrange(0, c0.len() as int) =~= c0,
-            //# C02,C10,C16.mulrk_cells
+            //# C02,C10,C16,C11.mulrk_cells
             forall|j: int| 0 <= j < k ==> mulrk_cell_ok(r@, formats@, is_1904, j, #[trigger] cells@[c0.len() + j]),
         ensures
             k == mulrk_n(r@),
